@@ -235,8 +235,10 @@ C08_Survivors(b, la, nn, c) ==
 (* Sizes, counts and ages are those of the snapshot.  Age limit on          *)
 (* non-monotone write times, permissive reading: removal of a segment is    *)
 (* "needed" when its last write is not younger than the cut-off, and the    *)
-(* limit "holds" when the oldest retained non-newest segment is not older   *)
-(* than the cut-off (equality is left free both ways).                      *)
+(* limit "holds" when the oldest retained segment is the newest one, is not *)
+(* older than the cut-off, or lies behind a segment that is younger than    *)
+(* the cut-off (age is judged oldest-first and stops at the first young     *)
+(* segment); equality with the cut-off is left free both ways.              *)
 
 TotCount(l, ss, k) == SeqSum([j \in 1..Len(ss) |-> IF j >= k THEN SegCount(l, ss, j) ELSE 0], Len(ss))
 TotBytes(l, ss, k) == SeqSum([j \in 1..Len(ss) |-> IF j >= k THEN SegBytes(l, ss, j) ELSE 0], Len(ss))
@@ -251,7 +253,9 @@ Breaks(l, ss, k, c, t) ==
 Holds(l, ss, k, c, t) ==
   /\ c.msgs > 0 => TotCount(l, ss, k) <= c.msgs
   /\ c.bytes > 0 => TotBytes(l, ss, k) <= c.bytes
-  /\ c.age > 0 => SegLwt(l, ss, k) >= t
+  /\ c.age > 0 => \/ k = Len(ss)
+                   \/ SegLwt(l, ss, k) >= t
+                   \/ \E j \in 1..k - 1 : SegLwt(l, ss, j) >= t    \* hidden behind a younger segment
 
 \* the number of segments dropped, as far as the segment list shows it: the
 \* first nr' = Len(sa) - nr segments of sa must be the last ones of b.segs
